@@ -683,6 +683,24 @@ func c03Run(ctx *vc.Ctx, rep *vc.Report) {
 				}
 			}
 		}
+		// (c2) long bodies: every seed padded to 320 bytes, each of its first 8 bytes swept over length-like values
+		// (count and length bytes need enough trailing data to pass the parsers' own checks before they matter)
+		for _, seed := range seedsC {
+			for _, fill := range []byte{0x00, 0x41} {
+				long := append([]byte(nil), seed...)
+				for len(long) < 320 {
+					long = append(long, fill)
+				}
+				try(long, nil, true)
+				for pos := 0; pos < min(8, len(seed)); pos++ {
+					for _, v := range []byte{0x00, 0x01, 0x7F, 0x80, 0xC8, 0xDB, 0xDC, 0xDD, 0xF0, 0xFE, 0xFF} {
+						g := append([]byte(nil), long...)
+						g[pos] = v
+						try(g, nil, true)
+					}
+				}
+			}
+		}
 		// (d) history independence
 		menu := append([][]byte(nil), s.Seeds...)
 		for _, seed := range s.Seeds {
